@@ -351,6 +351,92 @@ def _tag(x):
     return type(x).__name__
 
 
+class SimSemaphore:
+    def __init__(self, value=1):
+        self.v = value
+        self.name = W.fresh("sem") if W else "sem?"
+
+    def acquire(self, blocking=True, timeout=None):
+        if not blocking or timeout is not None:
+            def eff():
+                if self.v > 0:
+                    self.v -= 1
+                    return True
+                return False
+            return vop("sem.try", self, _always, eff)
+
+        def take():
+            self.v -= 1
+            return True
+        return vop("sem.acq", self, lambda: self.v > 0, take)
+
+    def release(self, n=1):
+        vop("sem.rel", self, _always, lambda: setattr(self, "v", self.v + n))
+
+    def __enter__(self):
+        self.acquire()
+        return self
+
+    def __exit__(self, *a):
+        self.release()
+
+
+class SimCondition:
+    """threading.Condition over a (re-entrant) lock: wait releases the lock and parks until notified."""
+
+    def __init__(self, lock=None):
+        self.lock = lock or SimRLock()
+        self.waiters = []
+        self.name = W.fresh("cond") if W else "cond?"
+
+    def acquire(self, *a, **k):
+        return self.lock.acquire(*a, **k)
+
+    def release(self):
+        self.lock.release()
+
+    def __enter__(self):
+        self.lock.acquire()
+        return self
+
+    def __exit__(self, *a):
+        self.lock.release()
+
+    def wait(self, timeout=None):
+        me = W.cur
+        token = [False]
+        self.waiters.append(token)
+        depth = getattr(self.lock, "count", 1)
+        for _ in range(depth if isinstance(self.lock, SimRLock) else 1):
+            self.lock.release()
+        if timeout is not None:
+            r = vop("cond.wait_t", self, _always, lambda: token[0])
+        else:
+            r = vop("cond.wait", self, lambda: token[0], lambda: True)
+        if token in self.waiters:
+            self.waiters.remove(token)
+        for _ in range(depth if isinstance(self.lock, SimRLock) else 1):
+            self.lock.acquire()
+        return r
+
+    def wait_for(self, predicate, timeout=None):
+        while not predicate():
+            self.wait(timeout)
+            if timeout is not None:
+                break
+        return predicate()
+
+    def notify(self, n=1):
+        def eff():
+            for t in self.waiters[:n]:
+                t[0] = True
+            del self.waiters[:n]
+        vop("cond.notify", self, _always, eff)
+
+    def notify_all(self):
+        self.notify(len(self.waiters) + 1)
+
+
 class SimValue:
     def __init__(self, typecode=None, value=0, lock=True):
         self._v = value
@@ -507,6 +593,15 @@ class SimContext:
     def Value(self, typecode, value=0, lock=True):
         return SimValue(typecode, value)
 
+    def Semaphore(self, value=1):
+        return SimSemaphore(value)
+
+    def Condition(self, lock=None):
+        return SimCondition(lock)
+
+    def JoinableQueue(self, maxsize=0):
+        return SimQueue(maxsize, piped=True)
+
     def cpu_count(self):
         return CPU_COUNT[0]
 
@@ -605,7 +700,15 @@ def make_shims():
     th.Event = SimEvent
     th.Lock = SimLock
     th.RLock = SimRLock
+    th.Semaphore = SimSemaphore
+    th.BoundedSemaphore = SimSemaphore
+    th.Condition = SimCondition
     th.current_thread = lambda: W.cur if W else None
+    qm = types.ModuleType("queue")
+    qm.Queue = SimQueue
+    qm.SimpleQueue = lambda: SimQueue(0)
+    qm.Empty = _q.Empty
+    qm.Full = _q.Full
     mp = types.ModuleType("multiprocessing")
     ctx = SimContext()
     mp.Process = SimProc
@@ -618,6 +721,11 @@ def make_shims():
     mp.Lock = SimLock
     mp.RLock = SimRLock
     mp.Event = SimEvent
+    mp.Semaphore = SimSemaphore
+    mp.BoundedSemaphore = SimSemaphore
+    mp.Condition = SimCondition
+    mp.JoinableQueue = lambda maxsize=0: SimQueue(maxsize, piped=True)
+    mp.current_process = lambda: W.cur if W else None
     mp.Array = lambda *a, **k: (_ for _ in ()).throw(NotImplementedError("Array is not offered by the shims"))
     mctx = types.ModuleType("multiprocessing.context")
     mctx.BaseContext = SimContext
@@ -626,7 +734,7 @@ def make_shims():
     mproc.BaseProcess = SimProcess
     mp.context = mctx
     mp.process = mproc
-    return {"threading": th, "multiprocessing": mp, "multiprocessing.context": mctx, "multiprocessing.process": mproc}
+    return {"threading": th, "multiprocessing": mp, "multiprocessing.context": mctx, "multiprocessing.process": mproc, "queue": qm}
 
 
 def load(path, modname, extra_modules=None, inject=None):
